@@ -6,7 +6,7 @@
    (Generated/GenFramerB.v); [crc16_bitwise], [spec_adu_*], [spec_rx_*] are the spec side. *)
 From PM.theories Require Import Base Expr Struct FrBCode Crc FrBCommon FrRtu FrBin FrSpecB.
 From PM.Generated Require Import GenFramerB.
-From PM.proofs Require Import Crc_proofs FrB_witness_proofs FrB_rtu_proofs.
+From PM.proofs Require Import Crc_proofs FrB_witness_proofs FrB_rtu_proofs FrB_bin_proofs.
 Open Scope list_scope.
 Open Scope N_scope.
 
@@ -84,6 +84,25 @@ Definition C03_full_statement_binary : Prop :=
     let cfg := {| cf_dec := dec; cf_rules := server_decoder; cf_units := []; cf_single := true |} in
     bin_build (Z.of_N uid) (Z.of_N fc) data = Ok (spec_adu_binary uid (fc :: data)) /\
     bin_recv cfg bin_init (spec_adu_binary uid (fc :: data)) = (bin_init, [(fc :: data, Z.of_N uid)], FOk).
+
+(* binary framer, strongest true statement: when neither unit, PDU nor CRC contains a delimiter
+   ([no_delim]) the packet built is the specified '{' ... '}' frame, and handed whole to a receiver
+   (fresh, or in any state whose buffer is empty) it is delivered exactly once, unit id kept *)
+Theorem C03_binary_partial_build : forall uid fc data, uid < 256 -> fc < 256 -> wfb data = true ->
+  no_delim (with_crc (uid :: fc :: data)) = true ->
+  bin_build (Z.of_N uid) (Z.of_N fc) data = Ok (spec_adu_binary uid (fc :: data)).
+Proof. exact bin_build_spec. Qed.
+Print Assumptions C03_binary_partial_build.
+
+Theorem C03_binary_partial : forall cfg u pdu, valid_bframe cfg u pdu ->
+  bin_recv cfg bin_init (spec_adu_binary u pdu) = (bin_init, [(pdu, Z.of_N u)], FOk).
+Proof. exact bin_whole_frame. Qed.
+Print Assumptions C03_binary_partial.
+
+Example C03_binary_nonvacuous :
+  let cfg := {| cf_dec := fun _ => DMsg; cf_rules := server_decoder; cf_units := [1%Z]; cf_single := false |} in
+  valid_bframe cfg 1 [3; 0; 1; 0; 2].
+Proof. exact valid_bframe_example. Qed.
 
 (* binary framer: refuted — a register value 0x7B7D is doubled by the sender, never un-doubled
    by the receiver; nothing is delivered (finding F-C03-binary-escaping) *)
